@@ -25,7 +25,7 @@ LEVEL = "exploration"
 RULE = ("scenario = version (none / supported / cutoff +-1 day,month,year / random dddd-dd-dd 1990..2199) set by handshake or setter, "
         "+ server lines (single messages and batch arrays of 0..4 valid/invalid members, chunked) + version changes mid-connection; "
         "non-trivial = at least one batch array was processed; distinct also varies with the version stratum")
-PROBES = ["notification_side_stream_full", "handshake_counter_proposal", "rejection_while_outgoing_saturated", "legacy_request_streams_registered", "batch_rejected", "batch_accepted", "version_change_same_instant_as_batch", "mode_flipped_mid_connection",
+PROBES = ["transport_object_reentered_after_versioned_connection", "notification_side_stream_full", "handshake_counter_proposal", "rejection_while_outgoing_saturated", "legacy_request_streams_registered", "batch_rejected", "batch_accepted", "version_change_same_instant_as_batch", "mode_flipped_mid_connection",
           "invalid_member_dropped", "empty_batch", "handshake_set_version", "cutoff_neighbour_version"]
 TIERS = {"quick": {"runs": 15000, "wall": 45.0}, "thorough": {"runs": 1000000, "wall": 560.0}}
 ASSUMPTIONS = [
@@ -122,6 +122,8 @@ def generate(rng: random.Random, tier: str) -> dict:
             # handshake only: the client proposes another version and the server counter-proposes v0 (both in the client's list)
             "proposed_other": (rng.choice(["2025-06-18", "2025-03-26", "2024-11-05", "2025-06-17", "2026-01-01"]) if setup == "handshake" and rng.random() < 0.5 else None),
             "big_frame": rng.random() < 0.5,
+            # through the Transport wrapper, possibly re-entered after an earlier connection that had negotiated another version
+            "via_transport": ({"earlier_version": rng.choice([None, "2025-06-18", "2025-06-18", "2025-03-26", "2026-01-01"])} if rng.random() < 0.2 else None),
             # nobody reads StdioClient.notifications (stdio_client() does not even expose it) and >= 100 notifications arrived earlier
             "undrained": (rng.choice([99, 100, 101, 120]) if rng.random() < 0.06 else None),
             "saturate": ({"n": rng.choice([101, 105, 130]), "resume_at": max(ln["t"] for ln in lines) + rng.choice([5, 50, 400])} if saturate_draw else None)}
@@ -134,6 +136,8 @@ def simplify(scn):
         c = copy.deepcopy(scn); c["saturate"] = None; yield c
     if scn.get("undrained"):
         c = copy.deepcopy(scn); c["undrained"] = None; yield c
+    if scn.get("via_transport"):
+        c = copy.deepcopy(scn); c["via_transport"] = None; yield c
     if scn.get("legacy_streams"):
         c = copy.deepcopy(scn); c["legacy_streams"] = None; yield c
     if scn["setup"] == "handshake":
@@ -175,9 +179,24 @@ def execute(scn: dict) -> dict:
 
         factory = ProcessFactory(sim, lambda idx, argv, env: {"read_mode": "eager", "responder": responder})
         with patched((anyio, "open_process", factory), (_uuid, "uuid4", fu)):
-            client = stdio.StdioClient(StdioParameters(command="sim-child", args=[]))
-            async with client:
-                child = factory.children[0]
+            from contextlib import AsyncExitStack
+            vt = scn.get("via_transport")
+            async with AsyncExitStack() as stack:
+                if vt:
+                    from chuk_mcp.transports.stdio.transport import StdioTransport
+                    tr = StdioTransport(StdioParameters(command="sim-child", args=[]))
+                    if vt.get("earlier_version"):
+                        # an earlier connection over the same transport object negotiated some version and was closed again
+                        async with tr:
+                            tr.set_protocol_version(vt["earlier_version"])
+                            await anyio.sleep(ticks(3))
+                        sim.probe("transport_object_reentered_after_versioned_connection")
+                    await stack.enter_async_context(tr)
+                    client = tr._client
+                else:
+                    client = stdio.StdioClient(StdioParameters(command="sim-child", args=[]))
+                    await stack.enter_async_context(client)
+                child = factory.children[-1]
                 st["child"] = child
                 read_stream, write_stream = client.get_streams()
 
@@ -186,7 +205,7 @@ def execute(scn: dict) -> dict:
                         into.append((sim.now(), m))
 
                 def set_version(v, why):
-                    client.set_protocol_version(v)
+                    (tr if vt else client).set_protocol_version(v)
                     st["ver_log"].append((sim.rec("env", "set-version", v), sim.now(), v, why))
 
                 if scn["setup"] == "setter":
